@@ -62,7 +62,18 @@ impl Part for C08 {
     fn run(&self, cfg: &Cfg, c: &Case) -> CaseOut {
         let mut out = CaseOut::new();
         out.outcome = format!("{:?}/{}", c.mode, c.suite.kem.name());
-        let k = keys(c.suite.kem, c.tag, cfg.seed);
+        // second pass for the Auth modes: the expected sender IS the recipient (a party that seals to itself); relations
+        // between the keys of a session must not switch the identity check off
+        for self_addressed in [false, true] {
+        if self_addressed && !c.mode.has_auth() {
+            continue;
+        }
+        let mut k = keys(c.suite.kem, c.tag, cfg.seed);
+        if self_addressed {
+            k.sk_s = k.sk_r.clone();
+            k.pk_s = k.pk_r.clone();
+        }
+        let k = k;
         let evil = keys(c.suite.kem, c.tag + 555, cfg.seed);
         let info = bytes(Fill::Mix, 20, 10, cfg.seed);
         let psk = bytes(Fill::Mix, c.psk_len, 11, cfg.seed);
@@ -84,7 +95,7 @@ impl Part for C08 {
         let mut impostor = |out: &mut CaseOut, what: String, m_s: ModeSpec| {
             match produce(c.suite, &m_s, &k.pk_r, &info, &k.ikm_e, cfg.seed) {
                 Ok((enc, p)) => {
-                    must_not_share(out, &format!("{} receiver {:?}: impostor [{}]", c.suite.name(), c.mode, what), c.suite, &m_r, &k.sk_r, &enc, &info, &p);
+                    must_not_share(out, &format!("{} receiver {:?}{}: impostor [{}]", c.suite.name(), c.mode, if self_addressed { " expecting its OWN key as sender key" } else { "" }, what), c.suite, &m_r, &k.sk_r, &enc, &info, &p);
                 }
                 Err(_) => {
                     // the impostor cannot even produce a session: nothing to accept
@@ -101,9 +112,11 @@ impl Part for C08 {
             let mut m = m_r.clone();
             m.sk_s = evil.sk_s.clone();
             impostor(&mut out, "victim's public key paired with a foreign private key".into(), m);
-            let mut m = m_r.clone();
-            m.sk_s = k.sk_r.clone();
-            impostor(&mut out, "victim's public key paired with the RECIPIENT's private key".into(), m);
+            if !self_addressed {
+                let mut m = m_r.clone();
+                m.sk_s = k.sk_r.clone();
+                impostor(&mut out, "victim's public key paired with the RECIPIENT's private key".into(), m);
+            }
             // the same sender without authentication
             let na = if c.mode == Mode::Auth { Mode::Base } else { Mode::Psk };
             let mut m = m_r.clone();
@@ -169,6 +182,7 @@ impl Part for C08 {
                 m.psk_id = vec![];
                 impostor(&mut out, "Base mode sender".into(), m);
             }
+        }
         }
         out
     }
